@@ -42,6 +42,9 @@ def main():
         res.gen_ok, res.gen_log = True, "skipped"
         res.gendriver_ok, res.gendriver_log = True, ""
     try:
+        if prop in ("C01", "C02", "C03", "C04", "C05", "C06", "C10", "C11", "C12", "C13", "C15", "C16", "C17", "C20"):
+            from sem import run_corpus
+            run_corpus(res, tier)
         mod.run(res, tier)
     except Exception:  # noqa: BLE001
         traceback.print_exc()
